@@ -13,6 +13,7 @@ type pin struct {
 	build  func() *ctlref.Program
 	fault  bool // additionally run the exhaustive fault sweep
 	script bool // script mode only (completion-value witnesses)
+	known  bool // witness of a known finding (function mode)
 }
 
 func lg() *ctlref.Node { return &ctlref.Node{Kind: ctlref.Log} }
@@ -88,6 +89,32 @@ var pinned = []pin{
 			return p
 		},
 	},
+	{
+		// seeded twin /verif/seeded/C08-goapi-forof-throw-no-close: Runtime.ForOf (Go API) over a generator suspended in nested
+		// try/finally and over an instrumented iterator; the Go step callback throws at item 2: return() / the finally blocks
+		// must run exactly once and the callback's exception must reach the script's catch clause.
+		name: "Runtime.ForOf: a throwing Go step callback closes the iterator (generator finally blocks, return())",
+		build: func() *ctlref.Program {
+			p := &ctlref.Program{
+				Gens: []*ctlref.GenDef{{Body: []*ctlref.Node{
+					{Kind: ctlref.Try, HasFinally: true,
+						Stmts: []*ctlref.Node{{Kind: ctlref.Try, HasFinally: true,
+							Stmts:   []*ctlref.Node{{Kind: ctlref.Yield}, {Kind: ctlref.Yield}, {Kind: ctlref.Yield}},
+							Finally: []*ctlref.Node{lg()}}},
+						Finally: []*ctlref.Node{lg()}},
+				}}},
+				Main: []*ctlref.Node{
+					{Kind: ctlref.Try, HasCatch: true, CatchParam: true,
+						Stmts: []*ctlref.Node{{Kind: ctlref.GoForOf, Iter: ctlref.Iter{Gen: 1}, Op: 4, At: 2}}, Catch: []*ctlref.Node{lg()}},
+					{Kind: ctlref.Try, HasCatch: true, CatchParam: true,
+						Stmts: []*ctlref.Node{{Kind: ctlref.GoForOf, Iter: ctlref.Iter{N: 3, Ret: ctlref.RetOK}, Op: 3, At: 2}}, Catch: []*ctlref.Node{lg()}},
+					{Kind: ctlref.GoForOf, Iter: ctlref.Iter{N: 3, Ret: ctlref.RetOK}, Op: 1, At: 1},
+					lg(),
+				}}
+			p.Number()
+			return p
+		},
+	},
 }
 
 func init() {
@@ -106,6 +133,9 @@ func init() {
 		pin{name: "KNOWN D3: do { if (second iteration) { break; } 4 } while (..)  evaluates to 4 (spec: undefined)", script: true, build: func() *ctlref.Program {
 			return num(&ctlref.Program{Main: []*ctlref.Node{{Kind: ctlref.DoWhile, Trip: 3, Stmts: []*ctlref.Node{
 				{Kind: ctlref.If, Cond: ctlref.Expr{Kind: ctlref.CCounterEq, D: 0, K: 2}, Stmts: []*ctlref.Node{{Kind: ctlref.Break}}}, lg()}}}})
+		}},
+		pin{name: "Runtime.ForOf: the Go step callback's exception wins over a throwing return() (fixed 4ec883b)", known: true, build: func() *ctlref.Program {
+			return num(&ctlref.Program{Main: []*ctlref.Node{{Kind: ctlref.GoForOf, Iter: ctlref.Iter{N: 2, Ret: ctlref.RetThrows}, Op: 2, At: 1}}})
 		}},
 	)
 }
